@@ -1,0 +1,46 @@
+//go:build verif
+// +build verif
+
+// Contracts for the deductive verifier in /verif (govc). Comment-only: no executable code.
+package flowcontrol
+
+//@ const ST = f.instanceStates
+//@ const viewOf = (instance in ST ? ST[instance].count : 0)
+
+//@ func (*globalMaxInflight).add props C08
+//@   modifies f.count
+//@   ensures [sum] f.count == int32(old(f.count) + n) && result == int32(f.count - f.max)
+
+//@ func (*globalMaxInflight).SetState props C08
+//@   requires [map] ST != nil
+//@   requires [nonnil] forall a string :: {ST[a]} a in ST ==> ST[a] != nil
+//@   requires [inj] forall a string, b string :: {ST[a], ST[b]} a != b && a in ST && b in ST ==> ST[a] != ST[b]
+//@   requires [small] 0 <= f.count && f.count <= 536870912 && -536870912 <= f.max && f.max <= 536870912 && current <= 536870912 && 0 <= viewOf && viewOf <= 536870912
+//@   modifies f.count, f.instanceStates[instance], f.instanceStates[instance].count, f.instanceStates[instance].requestId
+//@   ensures [remove] current < 0 ==> !(instance in ST) && f.count == old(f.count) - old(viewOf) && !result && result1 == -1 && result2 == nil
+//@   ensures [stale_id] current >= 0 && requestId > 0 && old(instance in ST) && requestId <= old(ST[instance].requestId) ==> !result && result2 == RequestIDTooOld && f.count == old(f.count) && viewOf == old(viewOf)
+//@   ensures [delta] f.count - old(f.count) == viewOf - old(viewOf)
+//@   ensures [frame] forall k string :: {ST[k]} k != instance ==> (k in ST) == old(k in ST) && ST[k] == old(ST[k])
+//@   ensures [bound] old(f.count) <= old(f.max) ==> f.count <= f.max
+//@   ensures [decrease_applied] current >= 0 && !(requestId > 0 && old(instance in ST) && requestId <= old(ST[instance].requestId)) && current <= old(viewOf) ==> viewOf == current && result2 == nil
+//@   ensures [refused_unchanged] current >= 0 && !result && result2 == nil && result1 != current ==> viewOf == old(viewOf) && f.count == old(f.count)
+//@   ensures [accepted_applied] result ==> viewOf == current && result1 == current
+//@   ensures [inj_kept] forall a string, b string :: {ST[a], ST[b]} a != b && a in ST && b in ST ==> ST[a] != ST[b]
+//@   ensures [nonnil_kept] forall a string :: {ST[a]} a in ST ==> ST[a] != nil
+
+//@ func (*globalMaxInflight).Resize props C08
+//@   modifies f.max
+//@   ensures [max_set] f.max == n && result == (old(f.max) != n)
+
+//@ interface (GlobalFlowControl).TryAcquireN(f, instance, token) props C08
+//@   modifies tbgranted[f]
+//@   ensures (result ==> tbgranted[f] == old(tbgranted[f]) + token) && (!result ==> tbgranted[f] == old(tbgranted[f]))
+//@ interface (GlobalFlowControl).SetState(f, instance, requestId, current) props C08
+//@   modifies setstatecalls
+//@   ensures setstatecalls == old(setstatecalls) + 1
+//@ interface (GlobalFlowControl).Type(f) props C08
+//@   pure-def gfcType(f)
+//@ interface (GlobalFlowControl).DebugInfo(f) props C08
+//@   pure
+//@ interface (GlobalFlowControl).String(f) props C08
+//@   pure
